@@ -119,6 +119,16 @@ class WriteAnalysis:
             if n.id == self.size_p:
                 return self.S
             return None
+        if isinstance(n, ast.Call) and norm(n.func) == "len" and len(n.args) == 1 and isinstance(n.args[0], ast.Name) and n.args[0].id == self.data_p:
+            # cp1252 is a single-byte code page: when every encoding of the text in this function is the strict cp1252 one (an
+            # unencodable character raises), the number of characters is the number of encoded bytes
+            def strict_cp1252(c):
+                enc = c.args[0] if c.args else next((k.value for k in c.keywords if k.arg == "encoding"), None)
+                return enc is not None and codec_of(enc) == "cp1252" and len(c.args) <= 1 and not any(k.arg == "errors" for k in c.keywords) \
+                    and isinstance(c.func.value, ast.Name) and c.func.value.id == self.data_p
+            if self.encodes and all(strict_cp1252(c) for c in self.encodes):
+                return self.L
+            return None
         if isinstance(n, ast.Call) and norm(n.func) == "len" and len(n.args) == 1:
             b = self.bval(n.args[0])
             if b is None:
